@@ -533,6 +533,11 @@ inline std::string shape(sz r, sz c) { return std::to_string(r) + "x" + std::to_
 #define C14_WITH_TALL 0
 #endif
 constexpr bool tall_left_ok(sz rows, sz inner) { return rows <= inner || C14_WITH_TALL != 0; }
+// The same holds for writes of the built-in scalar int *through an accessor* (at_r_c(m) = 7 ...):
+// if an accessor stops returning a reference such a statement no longer compiles, so these
+// instantiations live in C14b only (and in compile probes); the binary C14 does the same writes
+// with the class-type scalar quat (C14_access.hpp), where the defect is a lost write at run time.
+inline constexpr bool int_writes_ok = C14_WITH_TALL != 0;
 
 // shard registration entry points of the translation units
 void register_m2();
@@ -546,6 +551,8 @@ void register_rect_d();
 void register_vec();
 void register_dim();
 void register_shapes();
+void register_scalar();
+void register_access();
 void register_narrow();
 void register_narrow_mixed_a();
 void register_narrow_mixed_b();
